@@ -396,6 +396,11 @@ class Interp:
                         self.defect('badcount', e, f'rows of vector {a[1]} selected by a value of {b[1]}')
                         return K('rows', a[1], b[2])
                     return K('rows', a[1], b[2])
+                if a[0] == 'vec' and b[0] == 'idx' and b[1][0] == 'vals':
+                    # the codes are compared with the POSITION of a value in the table of distinct values, not with the value
+                    self.defect('badcount', e, f'the rows of a stratum are selected by comparing the codes of {a[1]} with a loop position ({render(b)}), not with the value at that position: '
+                                'right only while the distinct codes happen to be exactly 0..k-1 in order')
+                    return K('rows', a[1], b)
             raise Unknown(f'np.where({render(c)})', e)
         if d in ('numpy.count_nonzero', 'numpy.sum') and len(args) == 1 and args[0][0] == 'cmp':
             c = args[0]
